@@ -1082,10 +1082,21 @@ def m_pure(name, bits=None):
     return f
 
 
+def snapshot_args(ip, st, args):
+    """pointee values of pointer arguments at the time of the call (locals are purged on return)"""
+    out = []
+    for a in args:
+        if a is not None and a[0] in ('ref', 'slice'):
+            out.append(ip.read(st, a[1], a[2]))
+        else:
+            out.append(None)
+    return tuple(out)
+
+
 def m_effect(kind):
     def f(ip, st, fr, t, args, site, dest_ty):
         ret = T.UNIT if dest_ty == '()' else st.fresh(type_bits(dest_ty), kind)
-        st.events.append(('effect', kind, t['resolved'], tuple(args), ret, site))
+        st.events.append(('effect', kind, t['resolved'], tuple(args), ret, site, snapshot_args(ip, st, args)))
         yield (ret, st, 'ok', None)
     return f
 
